@@ -16,8 +16,16 @@ def main():
     a = ap.parse_args()
     seed = int(os.environ.get('VERIF_SEED', '0') or 0)
     pid = a.prop.upper()
-    mod = importlib.import_module('harness.%s' % pid.lower())
-    from . import par
+    try:
+        mod = importlib.import_module('harness.%s' % pid.lower())
+        from . import par
+    except BaseException:
+        # the harness could not even be set up against this tree: that is
+        # an error of the machinery, never a verdict about the property
+        traceback.print_exc()
+        print('HARNESS-ERROR property=%s' % pid)
+        sys.stdout.flush()
+        os._exit(2)
     try:
         if a.replay:
             with open(a.replay) as f:
